@@ -731,3 +731,67 @@ func perMethodBreaker() {
 	})
 	c.Done()
 }
+
+// The context forms honour their context: with a context that is already cancelled every
+// command method of the wrapper and of the sharded store fails with the context's error and
+// leaves every keyspace untouched — what go-redis does with the same context.
+func TestVerifCancelledContext(t *testing.T) {
+	defer vrt.WriteReport()
+	logx.Disable()
+	stat.SetReporter(nil)
+	if !vrt.Shard(14) {
+		return
+	}
+	c := vrt.NewCases("transparent/cancelled-context")
+	vrt.RunOnce(vrt.Options{Name: "cancelled-context"}, func(r *vrt.Run) {
+		pinBreaker()
+		canceled, cancel := context.WithCancel(context.Background())
+		cancel()
+		for _, kind := range []string{"wrapper", "kv/100,50,10"} {
+			w := getWorld(kind)
+			for _, i := range alphabet() {
+				if i.conv == "blpop" || strings.HasPrefix(i.conv, "pipe") || (len(i.raw) == 1 && i.raw[0] == "none") || i.m == "Ping" {
+					continue
+				}
+				for _, u := range w.suts {
+					if !u.ctxForm {
+						continue
+					}
+					name, args := i.m, i.args
+					if u.kv {
+						var ok bool
+						if name, args, ok = kvAdapt(i); !ok {
+							continue
+						}
+					}
+					m := reflect.ValueOf(u.target).MethodByName(name + "Ctx")
+					if !m.IsValid() {
+						continue
+					}
+					w.reset()
+					for _, p := range populate() {
+						step(r, w.ref, w.suts, p)
+					}
+					before := u.dump()
+					res, ok := callMethodCtx(m, canceled, args)
+					if !ok {
+						continue
+					}
+					_, err := canonResult(i.conv, res)
+					after := u.dump()
+					in := fmt.Sprintf("%s %v with a cancelled context", u.name, i)
+					c.Eval(fmt.Sprintf("%s/%s", kind, i.m), func() any {
+						return map[string]any{"call": in, "err": fmt.Sprint(err), "keyspace_changed": before != after}
+					})
+					if err == nil || !strings.Contains(err.Error(), context.Canceled.Error()) {
+						c.Violation(in, "result", fmt.Sprintf("returned error %v, want %v", err, context.Canceled))
+					}
+					if before != after {
+						c.Violation(in, "effect", fmt.Sprintf("the keyspace changed:\n--- before\n%s\n--- after\n%s", before, after))
+					}
+				}
+			}
+		}
+	})
+	c.Done()
+}
